@@ -53,7 +53,7 @@ static void run(const std::vector<std::string> & t)
       // the preconditioned sets are reused across frames by their owners (RANSAC model): build them for a LARGER set
       // first, then recompute them for this case's sets — nothing of the first frame may remain
       PointSet<P> bigS = src, bigT = tgt;
-      for (size_t q = 0; q < src.size() && q < 7; ++q) {bigS.push_back(src[q]); bigT.push_back(tgt[tgt.size() - 1 - q]);}
+      for (size_t q = 0; q < src.size() && q < 7 && !tgt.empty(); ++q) {bigS.push_back(src[q]); bigT.push_back(tgt[tgt.size() - 1 - q % tgt.size()]);}
       PreconditionedPointSet<P> ps(bigS, static_cast<S>(2) * s), pt(bigT, static_cast<S>(2) * s);
       ps.compute(src, s); pt.compute(tgt, s);
       H = est.find(ps, pt);
@@ -71,7 +71,7 @@ static void run(const std::vector<std::string> & t)
     } else {
       S s = static_cast<S>(vh::rf(pre));
       PointSet<P> bigS = src, bigT = tgt;
-      for (size_t q = 0; q < src.size() && q < 7; ++q) {bigS.push_back(src[q]); bigT.push_back(tgt[tgt.size() - 1 - q]);}
+      for (size_t q = 0; q < src.size() && q < 7 && !tgt.empty(); ++q) {bigS.push_back(src[q]); bigT.push_back(tgt[tgt.size() - 1 - q % tgt.size()]);}
       PreconditionedPointSet<P> ps(bigS, static_cast<S>(2) * s), pt(bigT, static_cast<S>(2) * s);
       ps.compute(src, s); pt.compute(tgt, s);
       H = est.find(ps, pt, corr);
